@@ -22,6 +22,22 @@ CLAIMS = {
    "deterministic simulation: real writer/reader/query code over a simulated disk, process kill enumerated at every mutating file-system operation (and torn writes) of every write-out of seeded histories; post-crash oracle against a reference store model",
    "Per generated write-out history every mutating file-system operation boundary and three (thorough: up to 50) torn lengths of every write are enumerated as kill points; after each kill the database is read back through the real reader, listing and query code and compared with the model of acknowledged write-outs (the in-flight block may be absent or present, never damaged), and follow-up write-outs must succeed. Histories are sampled by seed, crash points per history are exhaustive.",
    "Crash model is process kill (completed system calls survive; goProbe never fsyncs, power loss is out of scope). simfs is validated against the kernel by a differential self-test. Known findings (known_findings.json) are reported as KNOWN-FINDING and do not stop the run."),
+ "C01": ("store-sim", "exploration", "7.1",
+   "deterministic simulation: seeded histories of write sessions with restarts over a simulated disk, read back through the real reader against a reference store model",
+   "Seeded histories of 2-6 raw write sessions (arbitrary column payloads from 0 B to 300 KiB biased to the 4 KiB bufio / 8 KiB scratch buffer sizes, compressible and incompressible, lz4/zstd/null, levels 0-12, several days and interfaces, process restart between sessions) followed by flow-level write-outs; after every session every block written so far is read back through the real reader (default and read-all mode, forward and reverse block order) and compared byte for byte, with per-block and per-day summaries, against the model.",
+   "Sampled, not exhaustive. Fault-free configuration (faults are C04/C05). cgo encoders (the native builds are C02)."),
+ "C03": ("store-sim", "exploration", "7.3",
+   "deterministic simulation: seeded write histories with a jumping clock (non-monotone stamps, huge gaps, extreme counts) checked accepted=>reopens equal / rejected=>unchanged, plus torn and damaged metadata images fed to every reader entry point",
+   "Seeded histories whose timestamps come from a clock that jumps (equal, backwards, before the day's first block, gaps of 2^32-1 and beyond, negative) with summaries beyond 2^32-1 and counters near 2^64: every session is either rejected with the reopened day unchanged or accepted with the reopened day exactly equal to the model. Then >= 30 malformed variants of the real .blockmeta (every prefix in the thorough tier = what a torn metadata write leaves, bit flips, garbage, blown-up count/length fields) are fed to the reader, listing, query engine and the writer's open path; a panic or an allocation > 128 MiB for a KiB-sized database is a violation.",
+   "Length fields in damaged metadata are clamped to 256 MiB (the reader allocates twice the declared length; larger values cost > 8 GiB per probe) - the allocation behaviour itself is reported as a known finding. A hang would surface as worker time-out (exit 2)."),
+ "C05": ("store-sim", "fault_enumeration", "7.5",
+   "deterministic simulation with fault injection: one injected errno (ENOSPC/EIO/EACCES/EMFILE/EPERM, partial write+ENOSPC) enumerated at every file-system call of every write-out of seeded histories, sticky disk-full spans and fault sequences; oracle against a reference store model after the fault clears",
+   "Per generated history one error is injected at every file-system operation of every write-out (errno rotated per op in the quick tier, every applicable errno in the thorough tier), a partial write at every write, sticky disk-full spans, and in the thorough tier a second fault in the retry. The call must report an error unless the data is fully committed; afterwards the database must read back as the acknowledged write-outs (an error at/after the commit point may leave the block visible), listing and queries must agree, and later write-outs must succeed and read back.",
+   "Only errors a Linux kernel can return for that operation on a regular file (no short reads, no EINTR). Enumeration is exhaustive per generated history; histories are sampled."),
+ "C12": ("store-sim", "exploration", "7.12",
+   "deterministic simulation: seeded write-out histories over the simulated disk, real ReadMetadata for drawn (first,last) ranges compared with the reference model and with the totals of a real query",
+   "After write-outs of a seeded history (1-2 interfaces, days incl. month/year ends) 12 ranges per interface are drawn with bounds on block stamps, +-1 s around them, between blocks, on day boundaries, before/after all data and first=last; DBWorkManager.ReadMetadata must equal the sum of the model's blocks with first <= t <= last (flows per IP version, drops, four counters) and its counters must equal Summary.Totals of an engine query over the same range.",
+   "Fault-free configuration. Range bounds inclusive on both ends as in the query engine."),
 }
 
 ENGINES = {
